@@ -102,6 +102,16 @@ func c17Ops() []c17Op {
 			m.hbounds[lbl("s_hw", map[string]string{})] = []float64{0.5, 4}
 		}})
 	}
+	// a histogram asked for with nil buckets on a derived scope: the root's configured defaults (value bounds)
+	for _, x := range []float64{0.1, 3} {
+		x := x
+		ops = append(ops, c17Op{fmt.Sprintf("hdef rec %v", x), func(r tally.Scope, m *c17Model) {
+			r.SubScope("s").Histogram("hdef", nil).RecordValue(x)
+			id := lbl("s_hdef", map[string]string{})
+			m.hsamples[id] = append(m.hsamples[id], x)
+			m.hbounds[id] = []float64{0.25, 8}
+		}})
+	}
 	for _, d := range []time.Duration{1118 * time.Millisecond, 1140 * time.Millisecond, 1390 * time.Millisecond, time.Second, 3 * time.Second} {
 		d := d
 		ops = append(ops, c17Op{fmt.Sprintf("hd rec %v", d), func(r tally.Scope, m *c17Model) {
@@ -270,7 +280,8 @@ func c17Jobs(tier string) []*SeqJob {
 				reg := prom.NewRegistry()
 				rep := tprom.NewReporter(tprom.Options{Registerer: reg, DefaultTimerType: tt})
 				so := tprom.DefaultSanitizerOpts
-				root, _ := tally.VerifNewRootScope(tally.ScopeOptions{CachedReporter: rep, Separator: tprom.DefaultSeparator, SanitizeOptions: &so, OmitCardinalityMetrics: true}, 0, 1)
+				root, _ := tally.VerifNewRootScope(tally.ScopeOptions{CachedReporter: rep, Separator: tprom.DefaultSeparator, SanitizeOptions: &so, OmitCardinalityMetrics: true,
+					DefaultBuckets: tally.ValueBuckets{0.25, 8}}, 0, 1) // strictly increasing: what C17 quantifies over
 				m := newC17Model()
 				for _, op := range hist {
 					if ops[op].do != nil {
